@@ -28,7 +28,7 @@
    unbounded naturals, the harness ties BOTH dispatches - amd64 and a
    GOARCH=386 child (32-bit uint) built and run on every check - to clmul. *)
 From Coq Require Import ZArith NArith List Bool.
-From Mpc Require Import OT.Gf128 OT.Gf128Proof OT.Kos OT.KosProof OT.RunC15 Gen.Consts.
+From Mpc Require Import OT.Gf128 OT.Gf128Proof OT.Kos OT.KosProof OT.ChiStream OT.ChiStreamProof OT.RunC15 Gen.Consts.
 Import ListNotations.
 From Mpc Require Gen.State Base.StateExpected Base.StateCheck Base.StatePkgs.
 Local Open Scope nat_scope.
@@ -380,3 +380,45 @@ Theorem C15_state_inventory :
     Mpc.Base.StatePkgs.pkgs_C15 = true.
 Proof. vm_compute. reflexivity. Qed.
 Print Assumptions C15_state_inventory.
+
+(* CHI STREAM (OT/ChiStream.v: newPrg/prg/prgLabels and the block loops of
+   IKNPSender.Send / IKNPReceiver.Receive over `var chi [1024]Label`, array
+   overwritten in place on a prefix).  For EVERY keystream block function blk
+   (AES_seed(counter) in Go), EVERY stream position pos, EVERY array of at
+   least 256 entries with arbitrary (stale) content and EVERY batch size n
+   (n = 0, 1, k*1024 +- 1, ...): the pairs (coefficient, row) the sender
+   multiplies are exactly  (label drawn at byte pos+16*i, payload row i), i < n,
+   then (label at pos+16*(n+r), check row r), r < 256, and the stream ends at
+   pos + 16*(n+256).  Hypothesis non-vacuous: chi_array0_ok (the Go array);
+   chi_schedule_run runs n = 1030 across the in-place block boundary. *)
+Theorem C15_chi_schedule :
+  forall (blk : nat -> list N) pos arr n,
+    checkRows <= length arr ->
+    chi_schedule blk pos arr n =
+      (map (fun i => (lab_at blk (pos + 16 * i), i)) (seq 0 n),
+       map (fun r => (lab_at blk (pos + 16 * (n + r)), r)) (seq 0 checkRows),
+       pos + 16 * (n + checkRows)).
+Proof. exact chi_schedule_spec. Qed.
+Print Assumptions C15_chi_schedule.
+
+(* ... hence, for every blk, pos, arr, n: the row indices met by the payload
+   loop are 0, 1, ..., n-1 in order: every payload row index < n is covered by
+   exactly one chi coefficient, no index >= n by any; the check batch covers
+   rows 0..255 *)
+Theorem C15_chi_rows_covered_once :
+  forall (blk : nat -> list N) pos arr n,
+    checkRows <= length arr ->
+    let '(ps, cs, _) := chi_schedule blk pos arr n in
+    map snd ps = seq 0 n /\ map snd cs = seq 0 checkRows /\
+    (forall i, i < n -> count_occ Nat.eq_dec (map snd ps) i = 1) /\
+    (forall i, n <= i -> count_occ Nat.eq_dec (map snd ps) i = 0).
+Proof. exact chi_rows_covered_once. Qed.
+Print Assumptions C15_chi_rows_covered_once.
+
+(* for every blk and every c: 16 bytes drawn at byte position 16*c are
+   keystream block c alone (Label.SetBytes of it) - with the fresh stream of
+   newPrg(seed) (pos = 0) coefficient i is a function of (seed, i) only *)
+Theorem C15_chi_coefficient_is_block :
+  forall (blk : nat -> list N) c, lab_at blk (16 * c) = lab_block blk c.
+Proof. exact lab_at_block. Qed.
+Print Assumptions C15_chi_coefficient_is_block.
